@@ -146,8 +146,6 @@ impl<F: Fn(SimplexDirection, usize) + Send> SimplexPipe<F> {
         timeout: Duration,
     ) -> Result<ExchangeOnceStatus<T>, Error<T>> {
         loop {
-            self.last_activity = Instant::now();
-
             let future = async {
                 if self.pending_chunk.is_none() {
                     let x = self.source.read().await?;
@@ -197,6 +195,9 @@ impl<F: Fn(SimplexDirection, usize) + Send> SimplexPipe<F> {
                         );
                         self.pending_chunk = Some(Data::Chunk(unsent_data));
                     }
+                    // only a transfer counts as activity: restarting the exchange after the
+                    // other direction timed out must not postpone the expiration
+                    self.last_activity = Instant::now();
                 }
                 Data::Eof => {
                     self.sink.eof().map_err(|e| io_to_pipe_error(id, e))?;
